@@ -240,8 +240,8 @@ func c18Phases() []explore.Phase {
 			}
 			b := bases[bi]
 			doc["b"] = b
-			if b != math.Trunc(b) {
-				// fractional base: rounded first; only the numeral for the rounded base is checked
+			if b != math.Trunc(b) && b >= 2 && b <= 36 {
+				// fractional base inside the range: rounded first; only the numeral for the rounded base is checked
 				rb, _ := roundHalfEven(ratOfShortest(b))
 				got := c16Expect(x, "$formatBase(x, b)", doc, nil, false, false)
 				if got.Kind == impl.Value && rb.Int64() >= 2 && rb.Int64() <= 36 {
